@@ -105,7 +105,10 @@ def vis_fields(text, kw):
     return out
 
 
-def apply_rewrites(text, rewrites, log, where):
+def apply_rewrites(text, rewrites, log, where, tolerant=False):
+    """`tolerant`: the function's contract is imported (contracts-only mode): its body is carried along as an
+    external_body and is not verified here, so a body rewrite that no longer matches is skipped (logged) instead of
+    losing the anchor - a change of that body is judged by the unit that proves it and by the watch mechanism."""
     for rw in rewrites:
         pat = rsx.pat_tokens(rw["from"])
         st = rsx.sig(rsx.tokenize(text))
@@ -118,6 +121,9 @@ def apply_rewrites(text, rewrites, log, where):
                 sel.append(h)
                 last = h + len(pat) - 1
         cnt = rw["count"]
+        if ((cnt == "*" and not sel) or (cnt != "*" and len(sel) != int(cnt))) and tolerant:
+            log.append({"rule": rw["rule"], "from": rw["from"], "skipped": "pattern matched %d times (expected %s); contract imported, body not verified here" % (len(sel), cnt)})
+            continue
         if (cnt == "*" and not sel) or (cnt != "*" and len(sel) != int(cnt)):
             raise Lost("rewrite pattern `%s` matched %d times in %s (expected %s)" % (rw["from"], len(sel), where, cnt))
         for h in reversed(sel):
@@ -147,7 +153,15 @@ def process_fn(ctx, f, comps, opts, subs):
             raise Lost("hoist: nested item %r found %d times in %s" % (comp, len(cands), where))
         text = text[:cands[0].start] + text[cands[0].end:]
         log.append({"rule": "R-hoist", "item": comp.strip(), "why": "nested item is extracted separately at module level (scoping only)"})
-    text = apply_rewrites(text, subs["rewrite"], log, where)
+    if ctx.contracts_only:
+        # imported contract: the body is an external_body here. Rewrites often come in pairs (opening and closing part),
+        # so either all of them apply or none: if one no longer matches, the body is carried along as it is in the source
+        try:
+            text = apply_rewrites(text, subs["rewrite"], log, where)
+        except Lost as e:
+            log.append({"rule": "rewrites-skipped", "why": "contract imported, body not verified here: %s" % e})
+    else:
+        text = apply_rewrites(text, subs["rewrite"], log, where)
     text = rsx.strip_attributes(text, log)
     parts = rsx.fn_parts(text)
     edits = []  # (offset, delete_len, insert_text)
